@@ -138,7 +138,15 @@ class MDAGaussSeidel(BaseMDASolver):
     ) -> None:
         super().__init__(disciplines, settings_model=settings_model, **settings)
         self._compute_input_coupling_names()
-        self._set_resolved_variables(self.coupling_structure.strong_couplings)
+        # The couplings read by a discipline executed before the one computing them
+        # are one sweep late: they must be resolved too, otherwise the weakly coupled
+        # disciplines executed before their producers would return outdated outputs.
+        delayed_couplings = set(self.coupling_structure.all_couplings).intersection(
+            self.io.input_grammar
+        )
+        self._set_resolved_variables(
+            delayed_couplings.union(self.coupling_structure.strong_couplings)
+        )
         if self.settings.max_mda_iter == 0:
             del self.io.output_grammar[self.NORMALIZED_RESIDUAL_NORM]
 
